@@ -31,7 +31,10 @@ namespace sim {
 		// simplified network model where the two paths of a connection are set up
 		// independently, and we can set up the nat hop only on the outgoing path
 		p.from.address(m_external_addr);
-		if (p.channel) {
+		// only the connecting side's SYN establishes how that side is seen.
+		// SYN+ACKs travelling the other way carry the channel too, but a NAT in
+		// front of the acceptor must not overwrite the connector's address
+		if (p.channel && p.type == aux::packet::type_t::syn) {
 			p.channel->visible_ep[0].address(m_external_addr);
 		}
 		forward_packet(std::move(p));
